@@ -109,9 +109,32 @@ func strip(v ssa.Value) ssa.Value {
 				fv := structFieldValue(c.Call.Args[idx], pf, 0)
 				fieldLook--
 				if fv == nil {
+					// the object is a local variable of the caller holding an opaque value (a decoder's
+					// result): the caller's own (first) read of that field, if it has one
+					if al, isL := c.Call.Args[idx].(*ssa.UnOp); isL && al.Op == token.MUL {
+						if a, isA := al.X.(*ssa.Alloc); isA && wholeStoreOf(a, al) != nil {
+							if cl := canonicalFieldLoad(a, pf); cl != nil {
+								return cl
+							}
+						}
+					}
 					return v
 				}
 				v = fv
+			} else if fv := sessionFieldLoad(x); fv != nil && noParamLook == 0 {
+				v = fv
+			} else if fv := localStructFieldLoad(x); fv != nil && noParamLook == 0 && fieldLook <= 2 {
+				v = fv
+			} else if fv := nestedFieldLoad(x); fv != nil && noParamLook == 0 && fieldLook <= 2 {
+				v = fv
+			} else if a, isA := x.X.(*ssa.Alloc); isA && x.Op == token.MUL && noParamLook == 0 {
+				// a local variable that is assigned once, before this read, and only read otherwise
+				// (`ack := v.subject` kept in memory because a method is called on it): what it was assigned
+				sv := wholeStoreOf(a, x)
+				if sv == nil {
+					return v
+				}
+				v = sv
 			} else {
 				return v
 			}
@@ -128,7 +151,9 @@ func strip(v ssa.Value) ssa.Value {
 			fieldLook++
 			base := strip(x.X)
 			var fv ssa.Value
-			if base != x.X {
+			_, isCall := base.(*ssa.Call)
+			if base != x.X || isCall {
+				// (also a field of the struct a transparent helper assembles and returns by value)
 				fv = structFieldValue(base, st.Field(x.Field), 0)
 			}
 			fieldLook--
@@ -143,6 +168,18 @@ func strip(v ssa.Value) ssa.Value {
 			}
 			c := helperCall(x.Parent())
 			if c == nil {
+				// the body of a goroutine (or a deferred step) written as a named function that is
+				// started at one place only: its parameters are the values given there
+				// (only for callbacks — func-typed parameters: data parameters keep their identity inside
+				// the goroutine, where the rules about its own code reason)
+				_, isFunc := x.Type().Underlying().(*types.Signature)
+				if sp := spawnSite[x.Parent()]; sp != nil && isFunc {
+					idx := paramIndex(x)
+					if args := sp.Common().Args; idx >= 0 && idx < len(args) && len(args) == len(x.Parent().Params) {
+						v = args[idx]
+						continue
+					}
+				}
 				return v
 			}
 			idx := paramIndex(x)
@@ -231,6 +268,15 @@ func cellOnlyReadBy(fn *ssa.Function, mc *ssa.MakeClosure, cell ssa.Value, depth
 					return false
 				}
 			case *ssa.DebugRef:
+			case *ssa.FieldAddr:
+				// a field of the captured struct: read only
+				if y.Referrers() != nil {
+					for _, rr := range *y.Referrers() {
+						if u, isLoad := rr.(*ssa.UnOp); !isLoad || u.Op != token.MUL {
+							return false
+						}
+					}
+				}
 			case *ssa.MakeClosure:
 				g, _ := y.Fn.(*ssa.Function)
 				if g == nil || !cellOnlyReadBy(g, y, fv, depth+1) {
@@ -332,8 +378,16 @@ func fieldOfAddr(fa *ssa.FieldAddr) *types.Var {
 
 // isLoadOfField reports whether v (after strip) loads exactly field f.
 func isLoadOfField(v ssa.Value, f *types.Var) bool {
-	_, g, ok := fieldLoad(strip(v))
-	return ok && g == f
+	// as written (a field of a local struct value is not looked through to what was stored there) …
+	if _, g, ok := fieldLoad(stripNoParam(v)); ok && g == f {
+		return true
+	}
+	// … or after looking through helpers' parameters and local struct values
+	if _, g, ok := fieldLoad(strip(v)); ok && g == f {
+		return true
+	}
+	// … or the map parameter of a table helper that is only ever given this field
+	return mapParamOfField(v, f, 0)
 }
 
 func lenOperand(v ssa.Value) (ssa.Value, bool) {
@@ -632,12 +686,15 @@ func FactsAt(instr ssa.Instruction) []Fact { return factsAtDepth(instr, 0) }
 
 func factsAtDepth(instr ssa.Instruction, depth int) []Fact {
 	var out []Fact
+	var base []Fact
 	for _, g := range GuardsOf(instr) {
 		f := factOf(g)
 		out = append(out, f)
+		base = append(base, f)
 		// a branch on the outcome of a transparent predicate helper: what its returns establish
 		out = append(out, helperOutcomeFacts(f, depth)...)
 	}
+	out = append(out, jointEnumFacts(base, depth)...)
 	return withMirrored(out)
 }
 
@@ -693,6 +750,17 @@ func renderDepth(v ssa.Value, d int) string {
 	if d > 6 {
 		return "…"
 	}
+	if sub, ok := renderSubst[v]; ok && sub != nil && sub != v {
+		return renderDepth(sub, d+1)
+	}
+	if renderCanon > 0 && renderLocalParams == 0 {
+		// a field of a parameter object of a transparent helper: what the only caller put there
+		if p, _ := paramObjectField(v); p != nil && helperCall(p.Parent()) != nil {
+			if sv := strip(v); sv != v {
+				return renderDepth(sv, d+1)
+			}
+		}
+	}
 	switch x := v.(type) {
 	case *ssa.Const:
 		if x.Value == nil {
@@ -702,7 +770,7 @@ func renderDepth(v ssa.Value, d int) string {
 	case *ssa.Parameter:
 		if renderCanon > 0 {
 			// parameter of a transparent helper: what the only caller passes
-			if c := helperCall(x.Parent()); c != nil {
+			if c := helperCall(x.Parent()); c != nil && renderLocalParams == 0 {
 				if idx := paramIndex(x); idx >= 0 && idx < len(c.Call.Args) {
 					return renderDepth(c.Call.Args[idx], d+1)
 				}
@@ -821,6 +889,13 @@ func renderDepth(v ssa.Value, d int) string {
 
 func shortQual(p *types.Package) string { return p.Name() }
 
+// renderSubst: values rendered as other values (a helper's parameter as the argument of the calling
+// context under consideration).
+var renderSubst = map[ssa.Value]ssa.Value{}
+
+// renderLocalParams: canonical rendering without looking through the parameters of transparent helpers.
+var renderLocalParams int
+
 // renderCanon > 0: render local names (parameters, locals, captured variables) as their types, so that
 // a rendering can key a frozen reason without depending on how a variable is called.
 var renderCanon int
@@ -901,6 +976,17 @@ func linOf(v ssa.Value) Lin {
 	v = strip(v)
 	if c, ok := constInt(v); ok {
 		return Lin{Terms: map[string]int64{}, K: c, OK: true}
+	}
+	// a getter shared by several callers (`func (e *entry) vouchers() int { return len(e.idSet) }`):
+	// the expression it returns (terms are keyed by field, not by object, so no substitution is needed)
+	if cl, ok := v.(*ssa.Call); ok {
+		if g := cl.Call.StaticCallee(); g != nil && pureGetter(g) {
+			for _, in := range g.Blocks[0].Instrs {
+				if r, ok := in.(*ssa.Return); ok && len(r.Results) == 1 {
+					return linOf(r.Results[0])
+				}
+			}
+		}
 	}
 	if b, ok := v.(*ssa.BinOp); ok {
 		switch b.Op {
@@ -1282,4 +1368,256 @@ func GuardsLocal(instr ssa.Instruction) []Guard {
 	guardDepth += 100
 	defer func() { guardDepth -= 100 }()
 	return GuardsOfP(instr, nil)
+}
+
+// localStructFieldLoad: ld reads field f of a local struct variable that never escapes and whose field
+// f is written exactly once before the load — by the single assignment of the whole variable
+// (`handlers := s.handlersOf(topic)`: the field of the assigned value) or by the single assignment of
+// that field (`h.deliver = x`).  Returns the value written, or nil.
+func localStructFieldLoad(ld *ssa.UnOp) ssa.Value {
+	if ld.Op != token.MUL {
+		return nil
+	}
+	fa, ok := ld.X.(*ssa.FieldAddr)
+	if !ok {
+		return nil
+	}
+	a, ok := fa.X.(*ssa.Alloc)
+	if !ok || a.Referrers() == nil {
+		return nil
+	}
+	f := fieldOfAddr(fa)
+	var whole, fieldSt *ssa.Store
+	nWhole, nField := 0, 0
+	for _, r := range *a.Referrers() {
+		switch y := r.(type) {
+		case *ssa.Store:
+			if y.Addr != ssa.Value(a) {
+				return nil // the variable's address is stored somewhere
+			}
+			whole = y
+			nWhole++
+		case *ssa.UnOp:
+			if y.Op != token.MUL {
+				return nil
+			}
+		case *ssa.DebugRef:
+		case *ssa.FieldAddr:
+			if y.Referrers() == nil {
+				continue
+			}
+			for _, q := range *y.Referrers() {
+				switch z := q.(type) {
+				case *ssa.UnOp:
+					if z.Op != token.MUL {
+						return nil
+					}
+				case *ssa.Store:
+					if z.Addr != ssa.Value(y) {
+						return nil
+					}
+					if fieldOfAddr(y) == f {
+						fieldSt = z
+						nField++
+					}
+				case *ssa.DebugRef:
+				default:
+					return nil // the field's address is used otherwise (passed on, sliced, …)
+				}
+			}
+		default:
+			return nil
+		}
+	}
+	switch {
+	case nWhole == 1 && nField == 0:
+		if !instrDominates(whole, ld) {
+			return nil
+		}
+		fieldLook++
+		v := structFieldValue(whole.Val, f, 0)
+		fieldLook--
+		if v == nil {
+			// an opaque value (the result of a decoder): every read of this field of the variable is the
+			// same value — represented by the first read
+			if cl := canonicalFieldLoad(a, f); cl != nil && cl != ld {
+				return cl
+			}
+		}
+		return v
+	case nWhole == 0 && nField == 1:
+		if !instrDominates(fieldSt, ld) {
+			return nil
+		}
+		return fieldSt.Val
+	}
+	return nil
+}
+
+// canonicalFieldLoad: the first read (in block/instruction order) of field f of the local struct
+// variable a, which is assigned once as a whole and never written otherwise (wholeStoreOf).
+func canonicalFieldLoad(a *ssa.Alloc, f *types.Var) *ssa.UnOp {
+	if a.Referrers() == nil {
+		return nil
+	}
+	var best *ssa.UnOp
+	for _, r := range *a.Referrers() {
+		fa, ok := r.(*ssa.FieldAddr)
+		if !ok || fieldOfAddr(fa) != f || fa.Referrers() == nil {
+			continue
+		}
+		for _, q := range *fa.Referrers() {
+			ld, ok := q.(*ssa.UnOp)
+			if !ok || ld.Op != token.MUL || wholeStoreOf(a, ld) == nil {
+				continue
+			}
+			if best == nil || ld.Block().Index < best.Block().Index || (ld.Block() == best.Block() && instrIndex(ld) < instrIndex(best)) {
+				best = ld
+			}
+		}
+	}
+	return best
+}
+
+// nestedFieldLoad: ld reads x.outer.inner where outer is a struct-typed field (an embedded or nested
+// struct value, not a pointer) of a local struct variable or of a by-value parameter object of a
+// transparent helper: the value the nested struct was given (`in.route = s.routeOf(topic)`), then its
+// field.  Returns nil when either step is not a single assignment.
+func nestedFieldLoad(ld *ssa.UnOp) ssa.Value {
+	if ld.Op != token.MUL {
+		return nil
+	}
+	fin, ok := ld.X.(*ssa.FieldAddr)
+	if !ok {
+		return nil
+	}
+	fout, ok := fin.X.(*ssa.FieldAddr)
+	if !ok {
+		return nil
+	}
+	fOut := fieldOfAddr(fout)
+	if _, isS := fOut.Type().Underlying().(*types.Struct); !isS {
+		return nil
+	}
+	cell, ok := fout.X.(*ssa.Alloc)
+	if !ok || cell.Referrers() == nil {
+		return nil
+	}
+	var outer ssa.Value
+	// a by-value parameter spilled to this cell: the field of the argument
+	var param *ssa.Parameter
+	nWhole := 0
+	for _, r := range *cell.Referrers() {
+		if st, isSt := r.(*ssa.Store); isSt && st.Addr == ssa.Value(cell) {
+			nWhole++
+			param, _ = st.Val.(*ssa.Parameter)
+		}
+	}
+	fieldLook++
+	defer func() { fieldLook-- }()
+	switch {
+	case nWhole == 1 && param != nil:
+		if !cellFieldsOnlyRead(cell) {
+			return nil
+		}
+		c := helperCall(param.Parent())
+		idx := paramIndex(param)
+		if c == nil || idx < 0 || idx >= len(c.Call.Args) {
+			return nil
+		}
+		outer = structFieldValue(c.Call.Args[idx], fOut, 0)
+	case nWhole == 0:
+		// a local variable: the single assignment of the nested struct, before this read
+		var st *ssa.Store
+		n := 0
+		for _, r := range *cell.Referrers() {
+			fa, isFA := r.(*ssa.FieldAddr)
+			if !isFA || fieldOfAddr(fa) != fOut || fa.Referrers() == nil {
+				continue
+			}
+			for _, q := range *fa.Referrers() {
+				switch z := q.(type) {
+				case *ssa.Store:
+					if z.Addr == ssa.Value(fa) {
+						st = z
+						n++
+					}
+				case *ssa.FieldAddr:
+					// a field of the nested struct written on its own: not a single assignment
+					if z.Referrers() != nil {
+						for _, w := range *z.Referrers() {
+							if sw, isSw := w.(*ssa.Store); isSw && sw.Addr == ssa.Value(z) {
+								return nil
+							}
+						}
+					}
+				}
+			}
+		}
+		if n != 1 || !instrDominates(st, ld) {
+			return nil
+		}
+		outer = st.Val
+	default:
+		return nil
+	}
+	if outer == nil {
+		return nil
+	}
+	return structFieldValue(outer, fieldOfAddr(fin), 0)
+}
+
+// cellFieldsOnlyRead: nothing is stored through the cell or any (nested) field address of it, and its
+// address does not escape (loads, field addresses and debug references only).
+func cellFieldsOnlyRead(cell *ssa.Alloc) bool {
+	var ok func(v ssa.Value, d int) bool
+	ok = func(v ssa.Value, d int) bool {
+		refs := v.Referrers()
+		if refs == nil || d > 3 {
+			return d <= 3
+		}
+		for _, r := range *refs {
+			switch y := r.(type) {
+			case *ssa.UnOp:
+				if y.Op != token.MUL {
+					return false
+				}
+			case *ssa.DebugRef:
+			case *ssa.FieldAddr:
+				if !ok(y, d+1) {
+					return false
+				}
+			case *ssa.Store:
+				if v == ssa.Value(cell) && y.Addr == v && d == 0 {
+					continue // the spill of the parameter itself
+				}
+				return false
+			default:
+				return false
+			}
+		}
+		return true
+	}
+	return ok(cell, 0)
+}
+
+// pureGetter: an own function of one block and one result that only reads fields of its parameters
+// (loads, field selections, len/cap) — no stores, no calls, no captured state.
+func pureGetter(g *ssa.Function) bool {
+	if g == nil || len(g.Blocks) != 1 || len(g.FreeVars) > 0 || g.Signature.Results().Len() != 1 || !ownPkgPath(pkgPathOf(g)) {
+		return false
+	}
+	for _, in := range g.Blocks[0].Instrs {
+		switch x := in.(type) {
+		case *ssa.UnOp, *ssa.Return, *ssa.Field, *ssa.FieldAddr, *ssa.Convert, *ssa.ChangeType, *ssa.DebugRef, *ssa.BinOp:
+		case *ssa.Call:
+			bi, ok := x.Call.Value.(*ssa.Builtin)
+			if !ok || (bi.Name() != "len" && bi.Name() != "cap") {
+				return false
+			}
+		default:
+			return false
+		}
+	}
+	return true
 }
